@@ -200,6 +200,7 @@ type c08Req struct {
 	send        func(s *drive.Srv) drive.Status
 	apply       func(reg c14Registry) // effect if wholly applied (on a clone)
 	valid       bool                  // expected to be acknowledged
+	mustFail    bool                  // invalid by the data model: must be rejected without effect
 	crashPoints []string              // instrumented points this request passes through
 }
 
@@ -420,8 +421,10 @@ func c08Gen(r *common.Rand, reg c14Registry, kf03Open bool, realClock bool, firs
 		var muts []model.Mut
 		n := r.Range(1, 3)
 		for i := 0; i < n; i++ {
-			mu := gen.Mutation(r, gen.Opts{})
-			if r.Chance(2, 3) {
+			// (one mutation in eight is deliberately invalid - a timestamp that is not a whole millisecond, an unknown
+			// family, ...: what a table accepts must not change with a restart)
+			mu := gen.Mutation(r, gen.Opts{InvalidPct: 12})
+			if r.Chance(3, 5) {
 				mu = model.Mut{Kind: model.SetCell, Qual: common.Pick(r, gen.Quals), TS: common.Pick(r, gen.GoodTS), Val: common.Pick(r, valPool)}
 			}
 			if mu.Kind != model.DelRow {
@@ -433,7 +436,7 @@ func c08Gen(r *common.Rand, reg c14Registry, kf03Open bool, realClock bool, firs
 			muts = append(muts, mu)
 		}
 		v, _ := m.Apply(key, muts, gen.BaseClock)
-		return c08Req{desc: fmt.Sprintf("MutateRow(%s,%q,%s)", id, key, truncStr(model.MutsString(muts), 300)), valid: v == model.MustOK,
+		return c08Req{desc: fmt.Sprintf("MutateRow(%s,%q,%s)", id, key, truncStr(model.MutsString(muts), 300)), valid: v == model.MustOK, mustFail: v == model.MustErr,
 			send: func(s *drive.Srv) drive.Status { return drive.MutateRow(s.Data, name, key, muts) },
 			apply: func(reg c14Registry) {
 				if v, nr := reg[name].Apply(key, muts, gen.BaseClock); v != model.MustErr {
@@ -700,6 +703,13 @@ func c08Program(run *common.Run, p int, base string) {
 		if req.valid && !st.OK() {
 			fail("valid request failed: " + st.String())
 			return
+		}
+		if req.mustFail && st.OK() {
+			fail(fmt.Sprintf("an invalid request was accepted (after %d restarts of this program)", cycles))
+			return
+		}
+		if req.mustFail {
+			run.Count("invalid_writes_rejected", 1)
 		}
 		if st.OK() {
 			before := c08Size(reg)
@@ -1191,6 +1201,10 @@ func c08RealBinary(run *common.Run, p int, dir string) {
 		steps = append(steps, req.desc+" -> "+st.String())
 		if req.valid && !st.OK() {
 			run.Violation("real", p, "valid request failed: "+st.String(), map[string]any{"steps": steps})
+			return
+		}
+		if req.mustFail && st.OK() {
+			run.Violation("real", p, fmt.Sprintf("an invalid request was accepted (after %d kills of this program)", kills), map[string]any{"steps": steps})
 			return
 		}
 		if st.OK() {
